@@ -22,12 +22,15 @@ RULE = ('Configuration grid reconnection on/off x reconnection_attempts '
         'namespace, server CLOSE}; outcome pattern of the successive '
         'attempts {transport failure, namespace refusal, transport lost again before the namespaces are answered, '
         'lost between the answers and connect() waking up, lost with the '
-        'loss processed before the answers\' handler tasks, success} (all '
+        'loss processed before the answers\' handler tasks, accepted and '
+        'then disconnected by the server within the attempt (no further '
+        'attempt), success} (all '
         'patterns up to length 4 enumerated, longer ones sampled); '
         'shutdown() during the k-th back-off wait; the application connect '
         'handler of one namespace raising, or stalling longer than the '
         "attempt's wait, at its j-th invocation during the effort (the "
-        'server accepted: still the first success); a further loss right '
+        'server accepted: still the first success); a disconnect handler '
+        'that raises at the loss; a further loss right '
         'after a successful reconnection; a manual connect() and another '
         'loss after an effort ended. Waits are observed as the arguments of '
         'the wait primitives (threaded: harness event; asyncio: wait_for '
@@ -89,14 +92,20 @@ def strategy(tier):
                                        ['websocket', 'polling']]),
         'cause': st.sampled_from(['lose', 'lose', 'lose', 'disconnect',
                                   'sdisc_last', 'close']),
+        # ('kicked': the server accepts the returning client and ends one
+        # of its namespaces right behind the acceptance)
         'outcomes': st.lists(st.sampled_from(['fail', 'fail', 'refuse',
                                               'drop', 'drop_after',
-                                              'drop_inverted', 'ok']),
+                                              'drop_inverted', 'ok',
+                                              'kicked']),
                              max_size=8),
         'abort_at': st.one_of(st.none(), st.none(), st.integers(1, 6)),
         'second_loss': st.booleans(), 'manual': st.booleans(),
         # the application's connect handler of one namespace faults at its
         # j-th invocation during the first reconnection effort
+        # the application's disconnect handler of one namespace raises when
+        # the transport is lost: the reconnection effort starts all the same
+        'dhf': st.one_of(st.none(), st.none(), st.integers(0, 2)),
         'chf': st.one_of(st.none(), st.none(), st.fixed_dictionaries({
             'ns': st.integers(0, 2), 'j': st.integers(1, 3),
             'mode': st.sampled_from(['raise', 'stall'])}))})
@@ -151,10 +160,19 @@ def _run(case, h):
                 if faulty():
                     raise RuntimeError('application connect handler fault')
         return on_connect
+    dhf_state = {'on': False, 'hit': False}
+
+    def mk_disconnect(n):
+        def on_disconnect(*a):
+            log.append(('disconnect', n) + a)
+            if dhf_state['on'] and case.get('dhf') is not None and \
+                    n == nss[case['dhf'] % len(nss)]:
+                dhf_state['hit'] = True
+                raise RuntimeError('application disconnect handler fault')
+        return on_disconnect
     for n in NSS:
         sio.on('connect', mk_connect(n), namespace=n)
-        sio.on('disconnect', (lambda n: lambda *a: log.append(
-            ('disconnect', n) + a))(n), namespace=n)
+        sio.on('disconnect', mk_disconnect(n), namespace=n)
     calls = {'auth': 0, 'url': 0}
 
     def auth_fn():
@@ -227,6 +245,24 @@ def _run(case, h):
                     h.bg_mode = saved_mode
                 h.lose()
                 h.settle()
+            return
+        if cur['outcome'] == 'kicked':
+            if cur.get('refused'):
+                return
+            cur['refused'] = True
+            frs = [f for n in pend for f in wire.frames(
+                wire.CONNECT, n, None, {'sid': 'sid-%d-%s' % (h.n_conn, n)})]
+            frs += wire.frames(wire.DISCONNECT, pend[-1])
+            if aio:
+                from engineio import packet as ep
+                for f in frs:
+                    h.loop.spawn(h.eio._receive_packet(
+                        ep.Packet(ep.MESSAGE, f)))
+                h.loop.run_until_idle()
+            else:
+                for f in frs:
+                    h.deliver(f)
+            labels['server_disconnect_during_attempt'] = True
             return
         if cur['outcome'] == 'drop_after':
             if cur.get('refused'):
@@ -365,7 +401,7 @@ def _run(case, h):
                 if h.eio.state == 'connected' and any(
                         n not in sio.namespaces for n in nss) and \
                         not (cur['outcome'] in ('refuse', 'drop',
-                                                'drop_after',
+                                                'drop_after', 'kicked',
                                                 'drop_inverted') and
                              cur.get('refused')):
                     answers()
@@ -403,6 +439,9 @@ def _run(case, h):
             out = outcomes[k - 1] if k - 1 < len(outcomes) else 'fail'
             if out == 'ok':
                 return k, 'success'
+            if out == 'kicked':
+                # the server disconnected the client: no further attempt
+                return k, 'kicked'
             if case['attempts'] and k >= case['attempts']:
                 return k, 'exhausted'
             if k > 300:
@@ -418,6 +457,8 @@ def _run(case, h):
                             % (what, len(att), n_exp, how, outcomes,
                                abort_at, case['attempts']))
         n_waits = n_exp + (1 if how == 'abort' else 0)
+        if how == 'kicked' and len(waits) == n_exp + 1:
+            n_waits += 1    # (how the effort notices is not prescribed)
         if len(waits) != n_waits:
             raise Violation('wait-count', '%s: waits %r, expected %d'
                             % (what, waits, n_waits))
@@ -483,7 +524,14 @@ def _run(case, h):
     reader.read(h.take_msgs())
     cb, ab, ub = len(log), calls['auth'], calls['url']
     if cause == 'lose':
+        dhf_state['on'] = True
         h.lose()
+        dhf_state['on'] = False
+        h.swallowed[:] = [e for e in h.swallowed if
+                          'disconnect handler' not in str(e)]
+        if dhf_state['hit']:
+            labels['disconnect_handler_fault_at_the_loss'] = True
+            labels['nontrivial'] = True
     elif cause == 'disconnect':
         h.do(sio.disconnect())
     elif cause == 'close':
